@@ -441,10 +441,20 @@ pub fn agent_run(ctx: &mut Ctx, hist: &History, w: &World, junos: Junos, irr_ref
 pub fn agent_run_executable(ctx: &mut Ctx, w: &World, junos: Junos) -> (RunObs, Junos) {
     use std::io::Read;
     use std::sync::atomic::{AtomicBool, Ordering};
+    let mut junos = junos;
+    // (see below: the instance is kept in name / filter order around a run of the executable, so that
+    // an untouched policy looks the same before and after)
+    if let Some(db) = junos.instances.get_mut(&w.instance) {
+        db.sort_by(|a, b| a.0.cmp(&b.0));
+        for (_, policy) in db.iter_mut() {
+            for term in &mut policy.terms {
+                term.filters.sort();
+            }
+        }
+    }
     let before = junos.instances.get(&w.instance).cloned().unwrap_or_default();
     let first_session = junos.sessions.len();
     let irr = irr_state(ctx, &w.db);
-    let mut junos = junos;
     junos.running = w.policies.clone();
     junos.faults.clear();
     let shared = Arc::new(Mutex::new(junos));
